@@ -15,9 +15,11 @@ Sections
   F  folds.validation(p) holds exactly the elements requested for fold p
   G  every fold-construction function (createCVIID / FullyIndexed / SameSizeBalanced / Batch)
 
-Hypothesis `hz : optimalBatchSizes 0 bs = some []` ("the source returns no batch for zero elements") appears where a
-fold or class may be empty; it is false on the unrepaired source (finding F1) and true on the repaired one — the check
-reports which (`generated_optimalBatchSizes_at_zero` in the C03 evidence).
+No hypothesis on the batch arithmetic is left: the regenerated `optimalBatchSizes` is total (`CVAny.optimalBatchSizes_any`:
+no batch for zero elements since the repair of finding F1, maximum batch size 0 = unlimited since /repo 1c8c99ed), closed
+form `obsAny`.  The fold-construction functions of `Model/CV.lean` run the element-dealing loop of the C++ (`regroupLoop`);
+`regroupLoop_eq_regroup` (section D) identifies it with the specification `regroup` about which sections D–G speak.
+Continued in `Props/C12Ops.lean` (CVFolds operations, end-to-end statements per function, totality, nested CV).
 -/
 import SharkVerif.Lemmas.BatchArith
 import SharkVerif.Lemmas.BatchPartitioning
@@ -373,7 +375,7 @@ theorem regroupLoop_eq_regroup (set : LabeledData ι κ) (k : Nat) (assign : Lis
 /-- **fold_elements_partition** (model `regroup`, the common tail of createCVIndexed / createCVFullyIndexed /
 createCVIID / createCVSameSizeBalanced).  Let `els` be the elements picked at the processing positions and
 `tagged` = those elements with the fold each was assigned to.  If the source returns no batch for zero elements
-(`hz`, false on the unrepaired source: F1) then the call succeeds in building a reorganised dataset whose
+then the call builds a reorganised dataset whose
 inputs and labels are partitioned identically, whose (input, label) sequence is `ordered` = fold 0's elements,
 then fold 1's, … each in processing order — so every element sits in the fold requested for it, with the label
 it was picked with — and `ordered` is a permutation of the picked elements: each exactly once. -/
@@ -446,7 +448,7 @@ theorem pick_eq (set : LabeledData ι κ) (hw : C03.WF set) (pos : List Nat) (el
   cases hx : set.flat[i]? <;> simp [hx]
 
 /-- **createCVIndexed** (hence createCVIID for whatever the RNG draws): on a well-formed dataset, with the
-source returning no batch for zero elements (`hz`), the reorganised dataset is well-formed, its
+maximum batch size 0 included, the reorganised dataset is well-formed, its
 (input, label) sequence is the original one grouped by requested fold (fold 0's elements first, … each group in
 original order) and therefore a permutation of the original pairs — every element exactly once, with its label,
 in the fold requested for it -/
